@@ -319,6 +319,40 @@ def reuse_probe(run, tier, rng):
                 break
 
 
+def long_history_probe(run, T=64, n_lo=200, n_hi=2600, seed=77):
+    """a LONG stored history (N*T several million entries, the sizes a long real run reaches): normalised / unnormalised log-weights
+    and the evidence against an independent double evaluation of the same formula, sample by sample in row blocks"""
+    nr = np.random.RandomState(seed)
+    ns = [int(v) for v in nr.randint(n_lo, n_hi, size=T)]
+    betas = np.sort(np.concatenate([[0.0, 0.0], nr.rand(T - 3), [1.0]]))
+    logzs = np.cumsum(nr.randn(T)) * 0.5
+    batches = [(-0.5 * nr.chisquare(3, size=n) * (1 + 10 * (1 - b))) for n, b in zip(ns, betas)]
+    st = build_state(betas, logzs, batches)
+    N = sum(ns)
+    logl = np.concatenate(batches)
+    off = np.log(np.array(ns) / N) - logzs
+    what = dict(T=T, N=N, elements=N * T, seed=seed)
+    for bt in (1.0, 0.37):
+        try:
+            lw, lz = st.compute_logw_and_logz(bt, normalize=False)
+            lwn, _ = st.compute_logw_and_logz(bt)
+        except Exception as e:
+            run.fail("long-history-raises", f"compute_logw_and_logz on a history of {N} samples x {T} iterations raised {type(e).__name__}: {e}", **what)
+            return
+        run.case(key=("long-history", bt), nontrivial=True)
+        ref = np.empty(N)
+        for a in range(0, N, 5000):
+            blk = logl[a:a + 5000, None] * betas[None, :] + off[None, :]
+            m = blk.max(axis=1)
+            ref[a:a + 5000] = bt * logl[a:a + 5000] - (m + np.log(np.exp(blk - m[:, None]).sum(axis=1)))
+        mx = ref.max()
+        lse = mx + math.log(np.exp(ref - mx).sum())
+        if np.max(np.abs(np.asarray(lw) - ref)) > 1e-8 or abs(float(lz) - (lse - math.log(N))) > 1e-8 or np.max(np.abs(np.asarray(lwn) - (ref - lse))) > 1e-8:
+            run.fail("logw-formula", f"history of {N} samples x {T} iterations ({N * T} matrix entries), beta={bt}: max |logw - formula| = "
+                     f"{float(np.max(np.abs(np.asarray(lw) - ref))):.3g}, logz {float(lz)!r} vs {lse - math.log(N)!r}", beta=bt, **what)
+            return
+
+
 def main(tier, seed):
     run = Run(PID, tier, seed)
     run.rule = ("histories with T in 1..6 iterations, unequal batch sizes 1..7, beta_t in [0,1] in any order (incl. 0 and 1), "
@@ -350,11 +384,14 @@ def main(tier, seed):
         c01.stored_evidence_probe(run, tier)
         import c05
         c05.second_run_probe(run, tier, rng)    # the weights/evidence of every step of a second run() on one Sampler
+        long_history_probe(run)                 # 64 iterations, ~90000 samples: 5.8 million matrix entries
     except Exception:
         import traceback
         run.broken.append(("harness-exception", traceback.format_exc()[-1500:]))
 
     def search(r):
         check_against_reference(r, "quick", random.Random(4242))
+        if not r.failures:
+            long_history_probe(r, T=96, n_lo=1500, n_hi=3500, seed=78)   # ~23 million entries
 
     run.finish(search=search)
